@@ -26,6 +26,10 @@ type schedAgg struct {
 	HookFired   int
 	Mutates     int
 	GCs         int
+	Jumps       int
+	LibGo       int
+	LibChan     int
+	Scribbles   int
 	Errored     int
 	True        int
 	False       int
@@ -61,6 +65,10 @@ type schedResultDoc struct {
 	HookFired  int      `json:"hook_failures_fired"`
 	Mutates    int      `json:"mutations"`
 	GCs        int      `json:"gcs"`
+	Jumps      int      `json:"clock_jumps"`
+	LibGo      int      `json:"library_goroutines"`
+	LibChan    int      `json:"library_channel_ops"`
+	Scribbles  int      `json:"results_edited_by_caller"`
 	Errored    int      `json:"ops_errored"`
 	True       int      `json:"ops_true"`
 	False      int      `json:"ops_false"`
@@ -87,6 +95,10 @@ func (a *schedAgg) add(d map[string]json.RawMessage, conc bool) {
 	a.HookFired += r.HookFired
 	a.Mutates += r.Mutates
 	a.GCs += r.GCs
+	a.Jumps += r.Jumps
+	a.LibGo += r.LibGo
+	a.LibChan += r.LibChan
+	a.Scribbles += r.Scribbles
 	a.Errored += r.Errored
 	a.True += r.True
 	a.False += r.False
